@@ -1,7 +1,7 @@
 (* The case language interpreter: one case (an s-expression) in, one canonical result line out.
    The same function is evaluated in-kernel (vm_compute) and extracted to OCaml. *)
 From Coq Require Import Strings.String.
-From Iso Require Import Model.Base Model.Sexp Model.Padding Model.Encoding Model.Prefix.
+From Iso Require Import Model.Base Model.Sexp Model.Padding Model.Encoding Model.Prefix Model.Network.
 
 Definition S' (s : string) : bytes := list_byte_of_string s.
 
@@ -132,6 +132,51 @@ Definition run_pref_dec (args : list sexp) : bytes :=
   | _ => bad
   end.
 
+Definition parse_hkind (s : sexp) : option hkind :=
+  if atom_is s (S' "Binary2") then Some HBinary2
+  else if atom_is s (S' "ASCII4") then Some HASCII4
+  else if atom_is s (S' "BCD2") then Some HBCD2
+  else if atom_is s (S' "VMLH") then Some HVMLH
+  else None.
+
+Definition show_bool (b : bool) : bytes := if b then S' "1" else S' "0".
+
+Definition run_hdr_set (args : list sexp) : bytes :=
+  match args with
+  | [k; n] =>
+      match parse_hkind k, as_int n with
+      | Some k, Some n => show_outcome (fun st => show_int (hlen st)) (hdr_set k hinit n)
+      | _, _ => bad
+      end
+  | _ => bad
+  end.
+
+Definition run_hdr_write (args : list sexp) : bytes :=
+  match args with
+  | [k; n] =>
+      match parse_hkind k, as_int n with
+      | Some k, Some n =>
+          match hdr_set k hinit n with
+          | Ok st => show_outcome (fun w => show_hex w ++ sp ++ show_int (zlen w)) (hdr_write k st)
+          | _ => S' "seterr"
+          end
+      | _, _ => bad
+      end
+  | _ => bad
+  end.
+
+Definition run_hdr_read (args : list sexp) : bytes :=
+  match args with
+  | [k; SList chunks] =>
+      match parse_hkind k, map_opt as_hex chunks with
+      | Some k, Some chunks =>
+          show_outcome (fun '(st, r, rest) => show_int (hlen st) ++ sp ++ show_int r ++ sp ++ show_bool (hsess st) ++ sp ++ show_hex (concat rest))
+                       (hdr_read k hinit chunks)
+      | _, _ => bad
+      end
+  | _ => bad
+  end.
+
 Definition dispatch (s : sexp) : bytes :=
   match s with
   | SList (Atom name :: args) =>
@@ -141,6 +186,9 @@ Definition dispatch (s : sexp) : bytes :=
       else if bytes_eqb name (S' "enc.dec") then run_enc_dec args
       else if bytes_eqb name (S' "pref.enc") then run_pref_enc args
       else if bytes_eqb name (S' "pref.dec") then run_pref_dec args
+      else if bytes_eqb name (S' "hdr.set") then run_hdr_set args
+      else if bytes_eqb name (S' "hdr.write") then run_hdr_write args
+      else if bytes_eqb name (S' "hdr.read") then run_hdr_read args
       else bad
   | _ => bad
   end.
